@@ -305,3 +305,4 @@ TRUSTED = ["matrix layer (ring laws), prefix operators ROWP/COLP (first n rows /
            "the Tikhonov SVD form V diag(s/(s^2+alpha)) U^T y equals the ridge solution on the retained directions (cited); the sklearn scorer is SCORE(prediction, truth) of the identity estimator's prediction",
            "KFold / check_cv yield one (fold1, fold2) pair (index sets as uninterpreted tokens: every fold assignment); joblib.Parallel evaluates the generator in order; np.spacing(1) = a positive constant",
            "numerical effects (bounded coefficients for rank-deficient X, scorers' values): bounded runtime checks"]
+LEAN_LEMMAS = "lemmas/lean/Lemmas.lean"
